@@ -68,9 +68,7 @@ def run_robust(runner, lines, prefix=None, jobs=None, timeout=60, iso_timeout=10
     pre = [prefix] if prefix else []
 
     def answers(p, want):
-        o = p.stdout.split('\n')
-        if o and o[-1] == '':
-            o.pop()
+        o = p.stdout.split('\n')[:-1]      # drops '' after a complete last line, or a partial line of a killed process
         if prefix:
             o = o[1:]
         return o[:want]
